@@ -194,38 +194,9 @@ func (i *ZodIntersection[T, R]) ParseAny(input any, ctx ...*core.ParseContext) (
 
 // StrictParse validates input with compile-time type safety.
 func (i *ZodIntersection[T, R]) StrictParse(input T, ctx ...*core.ParseContext) (R, error) {
-	pc := resolveCtx(ctx)
-	converted := convertToIntersectionConstraintType[T, R](input)
-
-	leftResult, leftErr := i.internals.Left.ParseAny(converted, pc)
-	rightResult, rightErr := i.internals.Right.ParseAny(converted, pc)
-
-	leftIssues := collectSchemaIssues(leftErr, converted, pc)
-	rightIssues := collectSchemaIssues(rightErr, converted, pc)
-
-	mergedIssues := mergeUnrecognizedKeysIssues(leftIssues, rightIssues)
-	if len(mergedIssues) > 0 {
-		var zero R
-		return zero, issues.NewZodError(mergedIssues)
-	}
-
-	merged, err := mergeValues(leftResult, rightResult)
-	if err != nil {
-		iss := issues.CreateCustomIssue(err.Error(), map[string]any{"type": "intersection"}, converted)
-		var zero R
-		return zero, issues.NewZodError([]core.ZodIssue{issues.FinalizeIssue(iss, pc, core.Config())})
-	}
-
-	if len(i.internals.Checks) > 0 {
-		checked, err := engine.ApplyChecks[any](merged, i.internals.Checks, pc)
-		if err != nil {
-			var zero R
-			return zero, err
-		}
-		merged = checked
-	}
-
-	return convertToIntersectionConstraintType[T, R](merged), nil
+	// StrictParse must answer exactly what Parse answers: the statically typed input is a valid
+	// Parse input, so run the one pipeline.
+	return i.Parse(input, ctx...)
 }
 
 // MustStrictParse panics if StrictParse returns an error.
